@@ -23,7 +23,7 @@ CONSTANTS
  MCMaxReal = 1
  MCBlocks <- Blk1
  MCErrs = FALSE
- MCScribble = TRUE
+ MCScribble = FALSE
  MCGraffiti <- GBoth
  MCVers <- VCap
  MCLOps <- LOpsConn
